@@ -13,6 +13,6 @@ MCIds == 1..2
 MCOps == {"New", "Slice", "GetBin", "Take", "TakeUnsorted", "IndexRefused"}
 Ix == {NoneIx, -5, -4, -3, -2, -1, 0, 1, 2, 3, 4, 5}
 MCSliceArgs == Ix \X Ix
-MCTakeArgs == UNION {[1..m -> 0..3] : m \in 1..3}
+MCTakeArgs == UNION {[1..m -> -4..3] : m \in 1..2} \cup [1..3 -> 0..3] \cup {<<0, 2, -1>>, <<-1, -3, 1>>, <<1, -4, 2>>}
 MCScalars == {<<2, 1, "pyint">>}
 =============================================================================
